@@ -325,3 +325,60 @@ func H_C03_sequence() {
 	}
 	vReach("sequence served")
 }
+
+func init() { vReg("H_C03_manyroutes", H_C03_manyroutes) }
+
+// A larger route table with interleaved operations (16 routes): several search routes
+// match the request; the one registered first must serve it, whatever internal
+// organisation the mux uses (sorting, grouping, indexing).
+func H_C03_manyroutes() {
+	m := vMux()
+	var calls []int
+	h := func(i int) HandlerFunc {
+		return func(w *ResponseWriter, r *Request) { calls = append(calls, i) }
+	}
+	which := vLen("requestBase", 2) // the request's base DN: "a", "b" or "c"
+	bases := []string{"a", "b", "c"}
+	firstMatch := -1
+	for i := 0; i < 16; i++ {
+		var err error
+		switch i % 4 {
+		case 0:
+			// search routes for base a, b, c, a (the last one shadowed by the first)
+			b := bases[(i/4)%3]
+			err = m.Search(h(i), WithBaseDN(b))
+			if b == bases[which] && firstMatch < 0 {
+				firstMatch = i
+			}
+		case 1:
+			err = m.Add(h(i))
+		case 2:
+			if i == 14 {
+				err = m.Search(h(i)) // a catch-all search route near the end
+				if firstMatch < 0 {
+					firstMatch = i
+				}
+			} else {
+				err = m.Modify(h(i))
+			}
+		case 3:
+			err = m.Delete(h(i))
+		}
+		vAssert(err == nil, "route registered")
+	}
+	nc := vNetConn("c")
+	c, err := newConn(context.Background(), 1, nc, vLogger(), m)
+	vAssume(err == nil)
+	vSummarise("encodeInteger")
+	op := refApp(ApplicationSearchRequest, refOctet(bases[which]), refEnum(2), refEnum(0), refInt(0), refInt(0), refBool(false), refCtxPrim(7, "objectClass"), refSeq())
+	req, err := newRequest(1, c, &packet{Packet: vWire(refEnvelope(1, op, nil))})
+	vAssume(err == nil && req != nil)
+	w, err := newResponseWriter(c.writer, &c.writerMu, c.logger, c.connID, 1)
+	vAssume(err == nil)
+	m.serve(w, req)
+	vAssert(len(calls) == 1, "exactly one handler runs")
+	if len(calls) == 1 {
+		vAssert(calls[0] == firstMatch, "the first matching route in registration order serves the request (16 routes)")
+	}
+	vReach("many routes served")
+}
